@@ -344,7 +344,7 @@ func genAst(repo, outDir string) error {
 	var sb strings.Builder
 	sb.WriteString("(* GENERATED by qrb2coq from the current /repo tree - do not edit *)\n")
 	sb.WriteString("From Coq Require Import String List Bool.\nFrom QRB Require Import Meta.GoAst.\nImport ListNotations.\nLocal Open Scope string_scope.\n\n")
-	var allNames, varDefs []string
+	var allNames, varDefs, structDefs []string
 	for _, p := range astPkgs {
 		fset, files, err := parsePkgFiles(repo, p.dir)
 		if err != nil {
@@ -358,6 +358,38 @@ func genAst(repo, outDir string) error {
 			d.info = info
 		} else if p.name == "builder" || p.name == "fn" || p.name == "qrb" {
 			return fmt.Errorf("type-checking %s failed: %v", p.importPath, err)
+		}
+		// struct types
+		for _, f := range files {
+			for _, decl := range f.Decls {
+				gd, ok := decl.(*ast.GenDecl)
+				if !ok || gd.Tok != token.TYPE {
+					continue
+				}
+				for _, s := range gd.Specs {
+					ts := s.(*ast.TypeSpec)
+					st, ok := ts.Type.(*ast.StructType)
+					if !ok {
+						continue
+					}
+					var fields []string
+					for _, fl := range st.Fields.List {
+						ty := d.src(fl.Type)
+						if len(fl.Names) == 0 {
+							name := ty
+							if i := strings.LastIndexByte(name, '.'); i >= 0 {
+								name = name[i+1:]
+							}
+							name = strings.TrimPrefix(name, "*")
+							fields = append(fields, fmt.Sprintf("mkField %s %s true", coqStr(name), coqStr(ty)))
+						}
+						for _, n := range fl.Names {
+							fields = append(fields, fmt.Sprintf("mkField %s %s false", coqStr(n.Name), coqStr(ty)))
+						}
+					}
+					structDefs = append(structDefs, fmt.Sprintf("mkStruct %s %s %s", coqStr(p.name), coqStr(ts.Name.Name), coqList(fields)))
+				}
+			}
 		}
 		// package-level variables and constants
 		for _, f := range files {
@@ -416,6 +448,7 @@ func genAst(repo, outDir string) error {
 		}
 	}
 	fmt.Fprintf(&sb, "Definition all_funcs : list gfunc :=\n  %s.\n\n", coqList(allNames))
-	fmt.Fprintf(&sb, "Definition all_vars : list gvar :=\n  %s.\n", coqList(varDefs))
+	fmt.Fprintf(&sb, "Definition all_vars : list gvar :=\n  %s.\n\n", coqList(varDefs))
+	fmt.Fprintf(&sb, "Definition all_structs : list gstruct :=\n  %s.\n", coqList(structDefs))
 	return writeIfChanged(filepath.Join(outDir, "Ast.v"), sb.String())
 }
